@@ -85,3 +85,78 @@ def coq_wspec(ws) -> str:
     bi = ' | '.join(f'{o} => ({ws["bin"][o][0]}, {ws["bin"][o][1]}, {ws["bin"][o][2]})' for o in BOPS)
     return (f'{{| w_un := fun o => match o with {un} end; w_bin := fun o => match o with {bi} end; '
             f'w_ud := ({ws["ud"][0]}, {ws["ud"][1]}) |}}')
+
+
+# ---- general weights (modal operators, quantifiers): one-variable forms ---------------------------
+
+def comp(g, f):
+    return (g[0] * f[0], g[0] * f[1] + g[1])
+
+
+def fw(ws, f):
+    if f[0] == 'id':
+        return (1, 0)
+    if f[0] == 'un':
+        return comp(tuple(ws['un'][f[1]]), fw(ws, f[2]))
+    al, be, ga = ws['bin'][f[1]]
+    a, b = fw(ws, f[2]), fw(ws, f[3])
+    return (al * a[0] + be * b[0], al * a[1] + be * b[1] + ga)
+
+
+def genw(ws, is_q, univ):
+    return tuple(ws['gen'][('Universal' if univ else 'Existential') if is_q else ('Necessity' if univ else 'Possibility')])
+
+
+def dscale(ws, d):
+    return tuple(ws['ud']) if d is False else (1, 0)
+
+
+def negw(ws, neg):
+    return tuple(ws['un']['Negation']) if neg else (1, 0)
+
+
+def lt1(f, g):
+    return f[0] <= g[0] and f[0] + f[1] < g[0] + g[1]
+
+
+def grule_ok(ws, st):
+    p = comp(dscale(ws, st['d']), comp(negw(ws, st['neg']), genw(ws, st['is_q'], st['univ'])))
+    for g in st['groups']:
+        for c in g:
+            if c[0] == 'ex':
+                forms = [comp(dscale(ws, d), fw(ws, f)) for f, d in c[1]]
+            elif c[0] == 'all':
+                forms = [comp(dscale(ws, c[2]), fw(ws, c[1]))]
+            else:
+                forms = [comp(dscale(ws, c[4]), comp(fw(ws, c[3]), comp(genw(ws, st['is_q'], c[1]), fw(ws, c[2]))))]
+            if not all(lt1(f, p) for f in forms):
+                return False
+    return True
+
+
+def search_general(oprules, gstructs, rounds=200):
+    """tf weights first (sum-decrease implies node-decrease), then coefficients for the four generalisers."""
+    ws, _ = search(oprules)
+    if ws is None:
+        return None
+    ws['gen'] = {k: [1, 1] for k in ('Possibility', 'Necessity', 'Existential', 'Universal')}
+    for it in range(rounds):
+        bad = [st for st in gstructs if not grule_ok(ws, st)]
+        if not bad:
+            return ws
+        st = bad[0]
+        key = ('Universal' if st['univ'] else 'Existential') if st['is_q'] else ('Necessity' if st['univ'] else 'Possibility')
+        if it % 2:
+            ws['gen'][key][0] += 1
+        else:
+            ws['gen'][key][1] += 2
+    return None
+
+
+def coq_gwspec(ws) -> str:
+    g = ws['gen']
+    return (f'{{| gw_base := {coq_wspec(ws)}; '
+            f'gw_mod := fun o => match o with Possibility => ({g["Possibility"][0]}, {g["Possibility"][1]}) '
+            f'| Necessity => ({g["Necessity"][0]}, {g["Necessity"][1]}) end; '
+            f'gw_qu := fun q => match q with Existential => ({g["Existential"][0]}, {g["Existential"][1]}) '
+            f'| Universal => ({g["Universal"][0]}, {g["Universal"][1]}) end |}}')
